@@ -56,6 +56,11 @@ def _pool(seed, n):
         o = {"latent_time": i % 3 != 1, "max_stack_depth": [10, 10, 0, 1][i % 4], "relative_match_len": [1.0, 1.0, 0.5][i % 3],
              "scorer": "constant" if i % 5 == 4 else "shipped"}
         entries.append({"t": t, "ts": tss[i % len(tss)], "o": o})
+    # the same reference-time dependent text under reference times that share the year and month (and the day): state keyed
+    # on a coarse summary of the reference time shows up here
+    for t in ["monday 3rd", "friday 13th", "the 5th", "tomorrow", "next friday", "8:00", "am 20.", "sunday", "end of month", "mittwoch den 12."]:
+        for tsx in ("2020-02-01T09:00:00", "2020-02-10T09:00:00", "2020-02-10T21:30:00", "2020-02-25T00:00:00"):
+            entries.append({"t": t, "ts": tsx, "o": {"latent_time": True, "max_stack_depth": 10, "relative_match_len": 1.0, "scorer": "shipped"}})
     # the same text under different ts / options
     for i in range(0, min(12, len(texts))):
         entries.append({"t": texts[i], "ts": tss[(i + 1) % len(tss)], "o": {"latent_time": i % 2 == 0, "max_stack_depth": 10, "relative_match_len": 1.0, "scorer": "shipped"}})
